@@ -99,10 +99,15 @@ struct Compiler {
 }
 
 impl Compiler {
+    #[cfg(test)]
     fn new(max_group: usize) -> Compiler {
+        Compiler::with_options(max_group, &RegexOptions::default())
+    }
+
+    fn with_options(max_group: usize, options: &RegexOptions) -> Compiler {
         Compiler {
             b: VMBuilder::new(max_group),
-            options: Default::default(),
+            options: options.clone(),
         }
     }
 
@@ -504,7 +509,8 @@ pub(crate) fn compile_inner(inner_re: &str, options: &RegexOptions) -> Result<Ra
 
     let re = RaBuilder::new()
         .configure(config)
-        .syntax(options.syntaxc)
+        // case insensitivity is already part of `inner_re` (`(?i:..)` written by `to_str`)
+        .syntax(options.syntaxc.case_insensitive(false))
         .build(inner_re)
         .map_err(CompileError::InnerError)
         .map_err(Error::CompileError)?;
@@ -520,7 +526,12 @@ pub(crate) fn compile_inner(inner_re: &str, options: &RegexOptions) -> Result<Ra
 
 /// Compile the analyzed expressions into a program.
 pub fn compile(info: &Info<'_>) -> Result<Prog> {
-    let mut c = Compiler::new(info.end_group);
+    compile_with_options(info, &RegexOptions::default())
+}
+
+/// Compile the analyzed expressions into a program whose delegates are built with `options`.
+pub(crate) fn compile_with_options(info: &Info<'_>, options: &RegexOptions) -> Result<Prog> {
+    let mut c = Compiler::with_options(info.end_group, options);
     c.visit(info, false)?;
     c.b.add(Insn::End);
     Ok(c.b.build())
